@@ -484,6 +484,76 @@ def clause_aggregation(ctx, cr):
            sample={"fn": "eval_guard_access_clause", "ok_paths": n, "spec": "all: FAIL iff some value FAILed else PASS; some: PASS iff some value PASSed else FAIL"})
 
 
+ERR = "rules::errors::Error"
+# reviewed conversions of an error into a value: function -> (callee names, reason)
+ERROR_CONVERSIONS = {
+    "rules::eval::each_lhs_compare": "the comparison closure's Err(NotComparable) becomes the per-pair result ComparisonResult::NotComparable, which every caller maps to FAIL (decided by R-C01-binary-status); every other error kind is returned",
+}
+
+
+def is_guard_result(cr, body, place):
+    ty, _ = M.place_ty(cr, None, place, body)
+    if ty is None or ty.adt_path() != ai.RESULT:
+        return False
+    args = ty.args()
+    return len(args) == 2 and args[1].adt_path() == ERR
+
+
+def errors_propagate(ctx, cr):
+    """`an evaluation error is raised exactly when the semantics is undefined` has a structural half: no function of the evaluator turns a
+    callee's error into a value.  For every function under rules:: reachable from the entry points that returns the crate's Result, on
+    every path on which some local call returned Err the function itself returns Err (each Result-returning call is forked into Ok/Err,
+    path-sensitively).  The single reviewed conversion is listed above."""
+    from engine import cg
+    rule = "R-C01-errors-propagate"
+    g = cg.CallGraph(cr)
+    reach = g.reachable(cg.entry_points(cr, "lib"))
+    n = 0
+    for k in sorted(reach):
+        f = cr.fns.get(k)
+        if f is None or not (k.startswith("rules::") or k.startswith("<rules::")) or any(w in k for w in ("::parser::", "libyaml", "_serde", "::errors::")):
+            continue
+        if f.get("file", "").endswith("_tests.rs") or f["kind"] not in ("fn", "assoc", "closure") or not is_guard_result(cr, f, 0):
+            continue
+        swallowed = set()
+
+        class H(ai.Hooks):
+            def call(self, a, st, term, callee, args):
+                d = M.norm_path(callee.get("decl", ""))
+                if d in ("std::ops::Try::branch", "std::ops::FromResidual::from_residual"):
+                    return None
+                if term.get("to") is not None and st.top is st.frames[0] and is_guard_result(cr, st.top.body, term["dest"]):
+                    mon = st.mon or Mon()
+                    site = M.norm_path(callee.get("path", "")).split("::")[-1]
+                    return [(("enum", ai.RESULT, 0, (a.sym(st, a.site(st, ":ok")),)), mon), (("enum", ai.RESULT, 1, (("sym", "E:" + site),)), mon.add("errs", site))]
+                return None
+
+            def inline(self, a, st, key, fn):
+                return False
+
+            def ret(self, a, st, v):
+                errs = (st.mon or Mon()).get("errs", frozenset())
+                if errs and not (v[0] == "enum" and v[1] == ai.RESULT and v[2] == 1):
+                    swallowed.update(errs)
+        a = ai.AI(cr, H(), max_states=300000)
+        try:
+            a.run(k, mon=Mon())
+        except ai.Undecided as e:
+            ctx.ob(rule, "%s:%s" % (rule, k), False, "undecided %s" % e, fn=f)
+            continue
+        ctx.states += a.n_states
+        n += 1
+        why = ERROR_CONVERSIONS.get(k)
+        if swallowed and why is None:
+            ctx.ob(rule, "%s:%s" % (rule, k), False, "an error returned by %s does not make %s return an error: the undefined case is turned into a status / value" % (sorted(swallowed), k.split("::")[-1]), fn=f)
+        elif swallowed:
+            ctx.ob(rule, "%s:%s" % (rule, k), True, "reviewed conversion: " + why, fn=f, sample={"fn": k, "converted": sorted(swallowed)})
+        elif why is not None:
+            ctx.ob(rule, "%s:%s" % (rule, k), True, "no conversion left (reviewed entry unused)", fn=f)
+    ctx.note_analysed("error_discipline", "%d Result-returning evaluator functions, every Err path returns Err" % n)
+    ctx.ob(rule, rule + ":coverage", n >= 90, "%d reachable Result-returning functions under rules:: analysed (floor 90)" % n)
+
+
 def run(ctx):
     cr = ctx.lib
     unary_tables(ctx, cr)
@@ -492,6 +562,7 @@ def run(ctx):
     selected_fn(ctx, cr)
     empty_skips(ctx, cr)
     clause_aggregation(ctx, cr)
+    errors_propagate(ctx, cr)
     ctx.assumptions += [
         "query traversal over documents (keys, *, [*], index, filters, converters) and list flattening in Eq/In are "
         "run-time data dependent and NOT decided here; the property's behavioural core is not claimed",
